@@ -276,7 +276,21 @@ class _D(Domain):
 
     def resolve_call(self, st, call, walker):
         # private helpers extracted from the analysed code are followed
-        return walker.resolve_helper(st, call)
+        r = walker.resolve_helper(st, call)
+        if r is None and isinstance(call.func, ast.Attribute) and not (
+                isinstance(call.func.value, ast.Name)
+                and call.func.value.id == 'self'):
+            # a method of the rule record (rule.accepts(path), ...): the one
+            # class of this module that defines it
+            mod = st.frame.func.module
+            owners = [c for c in mod.classes.values()
+                      if call.func.attr in c.methods
+                      and c.name.endswith('Rule')]
+            if len(owners) == 1 and call.func.attr != 'instantiate':
+                m = owners[0].methods[call.func.attr]
+                if m.kind == 'method':
+                    return m, owners[0], walker.canon(st, call.func.value)
+        return r
 
     def resolve_setter(self, st, target, walker):
         return None
@@ -307,7 +321,7 @@ def check_body(program, rep):
     exits = w.run(f, c)
     rep.count('paths', len(exits))
     bad = {}
-    cnt = {'store': 0, 'inst': 0, 'submap': 0, 'layer': 0, 'valueerror': 0,
+    cnt = {'filter': 0, 'store': 0, 'inst': 0, 'submap': 0, 'layer': 0, 'valueerror': 0,
            'skip': 0}
 
     def flag(rule, node, why):
@@ -377,6 +391,8 @@ def check_body(program, rep):
         other_filter = [t for t in cd if 'file_exts' in t and t not in (
             f'len({rule0}.file_exts)', f'{rule0}.file_exts',
             f'{pt}.splitext({path})[1] in {rule0}.file_exts')]
+        if ext_in is not None:
+            cnt['filter'] = cnt.get('filter', 0) + 1
         if other_filter:
             flag('body', [e for t, v, e in conds if t == other_filter[0]][
                 0].node, f'the extension filter tests "{other_filter[0]}": '
@@ -488,7 +504,7 @@ def check_body(program, rep):
                  'in the top layer does not push a new layer: the older '
                  'handle is lost')
     for k, mn in (('store', 4), ('inst', 4), ('submap', 1), ('layer', 1),
-                  ('valueerror', 1), ('skip', 1)):
+                  ('valueerror', 1), ('skip', 1), ('filter', 1)):
         rep.floor('C16.body', f'{k} events on the paths of __call__',
                   cnt[k], mn)
     if 'body' in bad:
